@@ -413,11 +413,10 @@ impl<C: ?Sized> rkyv::CheckBytes<C> for ArchivedDecimal {
         value: *const Self,
         context: &mut C,
     ) -> Result<&'a Self, Self::Error> {
-        i128::check_bytes(core::ptr::addr_of!((*value).coeff), context)
-            .map_err(|error| Self::Error {
-                field_name: "coeff",
-                inner: alloc::boxed::Box::new(error),
-            })?;
+        // `coeff` needs no check: every bit pattern is a valid i128. (The
+        // field may be unaligned, as the struct is packed, so
+        // `i128::check_bytes`, which returns a reference to the checked
+        // value, must not be used here.)
         u8::check_bytes(core::ptr::addr_of!((*value).n_frac_digits), context)
             .map_err(|error| Self::Error {
                 field_name: "n_frac_digits",
